@@ -1077,6 +1077,10 @@ def main():
     F.append("/-- keyword arguments that a call site passes under a name the callee does not have: Python binds them\n"
              "    into the callee's `**kwargs`, where nothing reads them (caller, callee, keyword) -/")
     F.append(f"def swallowed : List (String × String × String) := [{sw}]")
+    for _, c in MODULES:
+        swc = ", ".join(f"({lstr(a)}, {lstr(b)}, {lstr(k)})" for a, b, k in tr.swallowed if a.startswith(c + "."))
+        F.append(f"/-- the same, call sites inside `{c}` only -/")
+        F.append(f"def swallowed{c} : List (String × String × String) := [{swc}]")
     F.append("/-- per function: sites of `np.divide(where=)` without `out=` reachable from it -/")
     F.append("def uninitSites : List (String × List Nat) := [" +
              ", ".join(f"({lstr(f.qual)}, {sorted(f.junk_sites)})" for f in ok) + "]")
@@ -1092,9 +1096,25 @@ def main():
     F.append("/-- dtype abstract run over {int,float}: (function, dtype assignment of its array parameters, flag, where) -/")
     F.append("def dtypeFlags : List (String × String × String × String) := [" +
              ", ".join(f"({lstr(a)}, {lstr(b)}, {lstr(c)}, {lstr(d)})" for a, b, c, d in dt_rows) + "]")
+    F.append("/-- the same, restricted to public methods (name not starting with `_`); private helpers are still analysed\n"
+             "    through every public call chain that reaches them -/")
+    F.append("def dtypeFlagsPublic : List (String × String × String × String) := [" +
+             ", ".join(f"({lstr(a)}, {lstr(b)}, {lstr(c)}, {lstr(d)})" for a, b, c, d in dt_rows
+                       if not a.split(".")[1].startswith("_")) + "]")
     F.append(f"def dtypeAssignmentsEvaluated : Nat := {total_dt}")
     F.append("end Gen.Facts\n")
     write_if_changed(os.path.join(outdir, "Facts.lean"), "\n".join(F))
+    # ---- junk independence: one `rfl` theorem per function (fails to elaborate iff an uninitialised read is reachable)
+    J = ["-- GENERATED by tools/translate.py; do not edit", f"-- source-sha256: {allsha}",
+         "import PystogVerif.Gen.FourierFilter", "set_option linter.unusedVariables false", HEADER_VARS, "",
+         "namespace Gen.JunkFree"]
+    for f in ok:
+        sig = " ".join(f"({p} : {tname(f.ptypes[p])})" for p in f.params)
+        args = " ".join(f.params)
+        J.append(f"theorem {f.cls}_{f.name} (kw : Kw α) (junk junk' : Junk α) {sig} :\n"
+                 f"    {f.qual} kw junk {args} = {f.qual} kw junk' {args} := rfl")
+    J.append("end Gen.JunkFree\n")
+    write_if_changed(os.path.join(outdir, "JunkFree.lean"), "\n".join(J))
     # ---- dispatch
     D = ["-- GENERATED by tools/translate.py; do not edit", f"-- source-sha256: {allsha}",
          "import PystogVerif.Gen.FourierFilter", "import PystogVerif.Driver", "",
